@@ -116,9 +116,14 @@ struct Built {
     other_errors: Vec<String>,
 }
 
-fn cargo_build(proj: &Path, target: &Path, bin: &str) -> Built {
+fn cargo_build(proj: &Path, target: &Path, bin: &str, release: bool) -> Built {
+    let mut args = vec!["build", "--offline", "--quiet", "--message-format=json", "--bin", bin];
+    if release {
+        // cargo builds proc macros of a release build without overflow checks / debug assertions
+        args.push("--release");
+    }
     let out = Command::new("cargo")
-        .args(["build", "--offline", "--quiet", "--message-format=json", "--bin", bin])
+        .args(&args)
         .current_dir(proj)
         .env("CARGO_TARGET_DIR", target)
         .env("CARGO_NET_OFFLINE", "true")
@@ -301,7 +306,7 @@ pub fn run(opts: &Opts) -> ! {
         "coverage": {
             "evaluations": total,
             "distinct_nontrivial": nontrivial.len(),
-            "rule": "Generated programs: literal texts from a grammar restricted to what rustc lexes as one optional sign plus one unsuffixed integer/float literal (digits up to 40 places, exponents -400..=400 weighted to -40..=40, leading zeros, boundary coefficients around 2^127/2^128/10^38/10^39 with points and compensating exponents, scale limits 17/18/19, zero forms) plus a few underscore/radix/suffix/fraction-first forms. Each batch becomes two binaries of a scratch crate: P_ok (literals from_str accepts) must compile and print the same (coefficient, scale) as from_str; P_all (all literals) must produce a compiler error exactly on the lines of the literals from_str rejects. Non-trivial: literal has a fraction or an exponent; distinct by text.",
+            "rule": "Generated programs: literal texts from a grammar restricted to what rustc lexes as one optional sign plus one unsuffixed integer/float literal (digits up to 40 places, exponents -400..=400 weighted to -40..=40, leading zeros, boundary coefficients around 2^127/2^128/10^38/10^39 with points and compensating exponents, scale limits 17/18/19, zero forms) plus a few underscore/radix/suffix/fraction-first forms. Each batch becomes two binaries of a scratch crate, built in the dev profile and again with --release (cargo builds the proc macro of a release build without overflow checks): P_ok (literals from_str accepts) must compile and print the same (coefficient, scale) as from_str; P_all (all literals) must produce a compiler error exactly on the lines of the literals from_str rejects. Non-trivial: literal has a fraction or an exponent; distinct by text.",
             "samples": samples,
             "programs": programs,
             "accepted_by_from_str": accepted,
@@ -344,82 +349,85 @@ fn run_batch(root: &Path, lits: &[String], verbose: bool) -> (Vec<(String, Strin
     std::fs::write(proj.join("src/bin/p_ok.rs"), program(&ok_lits)).unwrap();
     std::fs::write(proj.join("src/bin/p_all.rs"), program(&all_lits)).unwrap();
     let mut programs = 0;
-    // ---- P_ok must compile and print from_str's values
-    if !ok_lits.is_empty() {
+    for release in [false, true] {
+        let pname = if release { "release profile (proc macro built without overflow checks)" } else { "dev profile" };
+        // ---- P_ok must compile and print from_str's values
+        if !ok_lits.is_empty() {
+            programs += 1;
+            let b = cargo_build(&proj, &target, "p_ok", release);
+            if !b.other_errors.is_empty() {
+                println!("INCONCLUSIVE: unexpected compiler output for P_ok: {:?}", b.other_errors.iter().take(3).collect::<Vec<_>>());
+                let _ = std::fs::remove_dir_all(&proj);
+                std::process::exit(2);
+            }
+            for (line, msgs) in &b.errors {
+                if *line >= FIRST_LINE && line - FIRST_LINE < ok_lits.len() {
+                    let l = ok_lits[line - FIRST_LINE];
+                    viol.push((l.clone(), format!("[{pname}] from_str accepts it as {:?} but Dec! fails to compile: {}", ok_exp[line - FIRST_LINE], msgs.join("; "))));
+                } else {
+                    println!("INCONCLUSIVE: compiler error outside the literal table (line {line}): {msgs:?}");
+                    let _ = std::fs::remove_dir_all(&proj);
+                    std::process::exit(2);
+                }
+            }
+            if b.ok {
+                let exe = target.join(if release { "release/p_ok" } else { "debug/p_ok" });
+                let out = Command::new(&exe).output().expect("run p_ok");
+                let text = String::from_utf8_lossy(&out.stdout);
+                let mut n = 0;
+                for line in text.lines() {
+                    let f: Vec<&str> = line.split(' ').collect();
+                    if f.len() != 3 {
+                        continue;
+                    }
+                    let i: usize = f[0].parse().unwrap();
+                    let c: i128 = f[1].parse().unwrap();
+                    let s: u8 = f[2].parse().unwrap();
+                    n += 1;
+                    if verbose {
+                        println!("  Dec!({}) = ({c}, {s}); from_str = {:?}", ok_lits[i], ok_exp[i]);
+                    }
+                    if (c, s) != ok_exp[i] {
+                        viol.push((ok_lits[i].clone(), format!("[{pname}] Dec! gives ({c}, {s}) but from_str gives {:?}", ok_exp[i])));
+                    }
+                }
+                if n != ok_lits.len() {
+                    println!("INCONCLUSIVE: P_ok printed {n} of {} lines (status {:?})", ok_lits.len(), out.status);
+                    let _ = std::fs::remove_dir_all(&proj);
+                    std::process::exit(2);
+                }
+            }
+        }
+        // ---- P_all: error lines == rejected literals
         programs += 1;
-        let b = cargo_build(&proj, &target, "p_ok");
+        let b = cargo_build(&proj, &target, "p_all", release);
         if !b.other_errors.is_empty() {
-            println!("INCONCLUSIVE: unexpected compiler output for P_ok: {:?}", b.other_errors.iter().take(3).collect::<Vec<_>>());
+            println!("INCONCLUSIVE: unexpected compiler output for P_all: {:?}", b.other_errors.iter().take(3).collect::<Vec<_>>());
             let _ = std::fs::remove_dir_all(&proj);
             std::process::exit(2);
         }
-        for (line, msgs) in &b.errors {
-            if *line >= FIRST_LINE && line - FIRST_LINE < ok_lits.len() {
-                let l = ok_lits[line - FIRST_LINE];
-                viol.push((l.clone(), format!("from_str accepts it as {:?} but Dec! fails to compile: {}", ok_exp[line - FIRST_LINE], msgs.join("; "))));
-            } else {
-                println!("INCONCLUSIVE: compiler error outside the literal table (line {line}): {msgs:?}");
+        for (i, l) in lits.iter().enumerate() {
+            let line = FIRST_LINE + i;
+            let has_err = b.errors.contains_key(&line);
+            if verbose {
+                println!("  P_all line {line}: Dec!({l}) compile error: {has_err}; from_str: {:?}", expected[i]);
+            }
+            match (expected[i], has_err) {
+                (None, false) => viol.push((l.clone(), format!("[{pname}] from_str rejects it but Dec! compiles"))),
+                (Some(e), true) => {
+                    if !viol.iter().any(|(v, _)| v == l) {
+                        viol.push((l.clone(), format!("[{pname}] from_str accepts it as {e:?} but Dec! fails to compile: {}", b.errors[&line].join("; "))));
+                    }
+                }
+                _ => {}
+            }
+        }
+        for line in b.errors.keys() {
+            if *line < FIRST_LINE || line - FIRST_LINE >= lits.len() {
+                println!("INCONCLUSIVE: compiler error outside the literal table (line {line}): {:?}", b.errors[line]);
                 let _ = std::fs::remove_dir_all(&proj);
                 std::process::exit(2);
             }
-        }
-        if b.ok {
-            let exe = target.join("debug/p_ok");
-            let out = Command::new(&exe).output().expect("run p_ok");
-            let text = String::from_utf8_lossy(&out.stdout);
-            let mut n = 0;
-            for line in text.lines() {
-                let f: Vec<&str> = line.split(' ').collect();
-                if f.len() != 3 {
-                    continue;
-                }
-                let i: usize = f[0].parse().unwrap();
-                let c: i128 = f[1].parse().unwrap();
-                let s: u8 = f[2].parse().unwrap();
-                n += 1;
-                if verbose {
-                    println!("  Dec!({}) = ({c}, {s}); from_str = {:?}", ok_lits[i], ok_exp[i]);
-                }
-                if (c, s) != ok_exp[i] {
-                    viol.push((ok_lits[i].clone(), format!("Dec! gives ({c}, {s}) but from_str gives {:?}", ok_exp[i])));
-                }
-            }
-            if n != ok_lits.len() {
-                println!("INCONCLUSIVE: P_ok printed {n} of {} lines (status {:?})", ok_lits.len(), out.status);
-                let _ = std::fs::remove_dir_all(&proj);
-                std::process::exit(2);
-            }
-        }
-    }
-    // ---- P_all: error lines == rejected literals
-    programs += 1;
-    let b = cargo_build(&proj, &target, "p_all");
-    if !b.other_errors.is_empty() {
-        println!("INCONCLUSIVE: unexpected compiler output for P_all: {:?}", b.other_errors.iter().take(3).collect::<Vec<_>>());
-        let _ = std::fs::remove_dir_all(&proj);
-        std::process::exit(2);
-    }
-    for (i, l) in lits.iter().enumerate() {
-        let line = FIRST_LINE + i;
-        let has_err = b.errors.contains_key(&line);
-        if verbose {
-            println!("  P_all line {line}: Dec!({l}) compile error: {has_err}; from_str: {:?}", expected[i]);
-        }
-        match (expected[i], has_err) {
-            (None, false) => viol.push((l.clone(), "from_str rejects it but Dec! compiles".to_string())),
-            (Some(e), true) => {
-                if !viol.iter().any(|(v, _)| v == l) {
-                    viol.push((l.clone(), format!("from_str accepts it as {e:?} but Dec! fails to compile: {}", b.errors[&line].join("; "))));
-                }
-            }
-            _ => {}
-        }
-    }
-    for line in b.errors.keys() {
-        if *line < FIRST_LINE || line - FIRST_LINE >= lits.len() {
-            println!("INCONCLUSIVE: compiler error outside the literal table (line {line}): {:?}", b.errors[line]);
-            let _ = std::fs::remove_dir_all(&proj);
-            std::process::exit(2);
         }
     }
     let _ = std::fs::remove_dir_all(&proj);
